@@ -599,7 +599,7 @@ class Run:
             part = os.path.getsize(self.out + '.part') if os.path.exists(self.out + '.part') else None
             idx = 'none'
             if os.path.exists(self.out + '.index'):
-                idx = index_status(self.out, deep) if (judge and status == 0 and not used_damaged) else (
+                idx = index_status(self.out, deep) if (judge and status == 0) else (
                     'stale' if open(self.out + '.index', 'rb').read() == STALE_INDEX else 'new')
             obs = '%s file=%s part=%s idx=%s' % (
                 'ok' if status == 0 else 'err',
